@@ -1,12 +1,14 @@
 import DracoModel.SeqDecoder
 import DracoModel.EbCounts
+import DracoProofs.SeqStream
 import DracoProofs.Scalar
 /-
   Helper lemmas for C09 part 1 (sequential decoders):
     * `Post`  — partial-correctness postconditions of `DecM` programs (inversion),
     * `Post2` — two runs of two programs from the same state,
     * `Runs`  — a program succeeds on a state whose input starts with given bytes,
-    * the postcondition of `decodeGeometry`, and the run of `decodeSeqConnectivity` on the
+    * the postcondition of `decodeGeometrySeq` (transferred to `decodeGeometry` on sequential
+      streams by `decodeGeometry_eq_seq`), and the run of `decodeSeqConnectivity` on the
       output of `encodeSeqConnectivityRaw`.
 -/
 namespace Draco.Counts
@@ -256,12 +258,13 @@ def SeqCountsOK (g : Geometry) : Prop :=
   (∀ a ∈ g.atts, a.numValues = g.numPoints ∧ a.map = none) ∧
   FacesBelow g.numPoints g.faces ∧ (g.isMesh = false → g.faces = [])
 
-theorem decodeGeometry_post (opts : DecOpts) :
-    Post (decodeGeometry opts) (fun r => SeqCountsOK r.geometry) := by
-  unfold decodeGeometry
+theorem decodeGeometrySeq_post (opts : DecOpts) :
+    Post (decodeGeometrySeq opts) (fun r => SeqCountsOK r.geometry) := by
+  unfold decodeGeometrySeq decodeStreamWith
   simp only [bind, pure]
   repeat' first
     | exact Post.failWith _
+    | exact Post.bind (Q := fun _ => False) (Post.failWith _) (fun _ h => h.elim)
     | exact Post.bind decodeSeqConnectivity_post (fun x hx =>
         Post.bind (decodePointAttributesSeq_post opts _) (fun atts ha =>
           Post.ret ⟨ha, hx, by simp⟩))
@@ -301,6 +304,11 @@ theorem Post2.tail {α β γ δ} {m1 : DecM α} {m2 : DecM β} {F : α → γ} {
           rw [← e1.1, ← e2.1]
           exact h a b (hm s a t1 b t2 h1 h2)
 
+theorem Post2.failWith_bind {α β γ} {R : γ → β → Prop} (st : Status) (f : α → DecM γ)
+    (m2 : DecM β) : Post2 ((DecM.failWith st : DecM α).andThen f) m2 R := by
+  intro s a s1 b s2 e1 _
+  simp [DecM.andThen, DecM.failWith] at e1
+
 theorem Post2.failWith {α β} {R : α → β → Prop} (st : Status) (m2 : DecM β) :
     Post2 (DecM.failWith st : DecM α) m2 R := by
   intro s a s1 b s2 e1 _
@@ -332,14 +340,15 @@ theorem decodePointAttributesSeq_length (o1 o2 : DecOpts) (np : Nat) :
 /-- two successful decodes of the same stream under different decoder options (in particular
     different `skip` sets) yield the same kind, number of points, faces and number of
     attributes -/
-theorem decodeGeometry_opts_indep (o1 o2 : DecOpts) :
-    Post2 (decodeGeometry o1) (decodeGeometry o2) (fun r1 r2 =>
+theorem decodeGeometrySeq_opts_indep (o1 o2 : DecOpts) :
+    Post2 (decodeGeometrySeq o1) (decodeGeometrySeq o2) (fun r1 r2 =>
       r1.geometry.isMesh = r2.geometry.isMesh ∧ r1.geometry.numPoints = r2.geometry.numPoints ∧
       r1.geometry.faces = r2.geometry.faces ∧ r1.geometry.atts.length = r2.geometry.atts.length) := by
-  unfold decodeGeometry
+  unfold decodeGeometrySeq decodeStreamWith
   simp only [bind, pure]
   repeat' first
     | exact Post2.failWith _ _
+    | exact Post2.failWith_bind _ _ _
     | exact Post2.tail (decodePointAttributesSeq_length o1 o2 _) (fun _ _ h => ⟨rfl, rfl, rfl, h⟩)
     | apply Post2.ite_same <;> intro _
     | apply Post2.bind_same; intro _
@@ -506,13 +515,13 @@ theorem Runs.header (s : DSt) (ma mi et em : Nat) (r : Bytes)
   refine Runs.bind (Runs.rdLE (n := 2) h6 (by decide)) (fun s7 h7 _ => ?_)
   exact ⟨s7, rfl, h7, rfl⟩
 
-theorem decodeGeometry_mesh_stream (opts : DecOpts) (s : DSt) (np : Nat)
+theorem decodeGeometrySeq_mesh_stream (opts : DecOpts) (s : DSt) (np : Nat)
     (faces : List (Nat × Nat × Nat)) (tail : Bytes)
     (hrest : s.rest = encodeSeqHeader true ++ (encodeSeqConnectivityRaw np faces ++ tail))
     (hidx : FacesBelow np faces) (hnp : np < 2^32) (hnf : faces.length ≤ 0xffffffff / 3) :
-    PostAt (decodeGeometry opts) s (fun r =>
+    PostAt (decodeGeometrySeq opts) s (fun r =>
       r.geometry.isMesh = true ∧ r.geometry.numPoints = np ∧ r.geometry.faces = faces) := by
-  unfold decodeGeometry
+  unfold decodeGeometrySeq decodeStreamWith
   simp only [bind, pure]
   refine Runs.postAt_bind (Runs.header s 2 2 1 0 _ (by rw [hrest]; rfl)) (fun s1 h1 _ => ?_)
   refine Runs.postAt_bind (Runs.require (by decide) s1) (fun s2 h2 _ => ?_)
@@ -536,12 +545,12 @@ theorem Runs.rdI32 {s : DSt} {v : Nat} {r : Bytes} (h : s.rest = writeLE 4 v ++ 
   refine Runs.bind (Runs.rdLE (n := 4) h (by omega)) (fun s1 h1 _ => ?_)
   exact ⟨s1, rfl, h1, rfl⟩
 
-theorem decodeGeometry_pc_stream (opts : DecOpts) (s : DSt) (np : Nat) (tail : Bytes)
+theorem decodeGeometrySeq_pc_stream (opts : DecOpts) (s : DSt) (np : Nat) (tail : Bytes)
     (hrest : s.rest = encodeSeqHeader false ++ (encodePcGeometryData np ++ tail))
     (hnp : np < 2^32) :
-    PostAt (decodeGeometry opts) s (fun r =>
+    PostAt (decodeGeometrySeq opts) s (fun r =>
       r.geometry.isMesh = false ∧ r.geometry.numPoints = np ∧ r.geometry.faces = []) := by
-  unfold decodeGeometry
+  unfold decodeGeometrySeq decodeStreamWith
   simp only [bind, pure]
   refine Runs.postAt_bind (Runs.header s 2 3 0 0 _ (by rw [hrest]; rfl)) (fun s1 h1 _ => ?_)
   refine Runs.postAt_bind (Runs.require (by decide) s1) (fun s2 h2 _ => ?_)
@@ -553,4 +562,52 @@ theorem decodeGeometry_pc_stream (opts : DecOpts) (s : DSt) (np : Nat) (tail : B
     (fun s5 _ _ => ?_)
   rw [toUnsigned_toSigned_32 np hnp]
   exact (Post.bind_any (fun _ => Post.bind_any (fun atts => Post.ret ⟨rfl, rfl, rfl⟩))).at s5
+/-! ### transfer to the complete decoder `decodeGeometry` -/
+
+/-- a stream that starts with the header written by the sequential encoders is sequential -/
+theorem isSeqStream_of_header (s : DSt) (isMesh : Bool) (r : Bytes)
+    (h : s.rest = encodeSeqHeader isMesh ++ r) : IsSeqStream s := by
+  cases isMesh with
+  | true =>
+    obtain ⟨s1, e, _, _⟩ := Runs.header s 2 2 1 0 r (by rw [h]; rfl)
+    exact ⟨_, s1, e, rfl⟩
+  | false =>
+    obtain ⟨s1, e, _, _⟩ := Runs.header s 2 3 0 0 r (by rw [h]; rfl)
+    exact ⟨_, s1, e, rfl⟩
+
+theorem decodeGeometry_post (opts : DecOpts) (s : DSt) (hs : IsSeqStream s) :
+    PostAt (decodeGeometry opts) s (fun r => SeqCountsOK r.geometry) := by
+  intro a s' e
+  rw [decodeGeometry_eq_seq opts s hs] at e
+  exact decodeGeometrySeq_post opts s a s' e
+
+theorem decodeGeometry_opts_indep (o1 o2 : DecOpts) (s : DSt) (hs : IsSeqStream s)
+    (r1 : DecodeResult) (s1 : DSt) (r2 : DecodeResult) (s2 : DSt)
+    (h1 : decodeGeometry o1 s = (some r1, s1)) (h2 : decodeGeometry o2 s = (some r2, s2)) :
+    r1.geometry.isMesh = r2.geometry.isMesh ∧ r1.geometry.numPoints = r2.geometry.numPoints ∧
+      r1.geometry.faces = r2.geometry.faces ∧
+      r1.geometry.atts.length = r2.geometry.atts.length := by
+  rw [decodeGeometry_eq_seq o1 s hs] at h1
+  rw [decodeGeometry_eq_seq o2 s hs] at h2
+  exact decodeGeometrySeq_opts_indep o1 o2 s r1 s1 r2 s2 h1 h2
+
+theorem decodeGeometry_mesh_stream (opts : DecOpts) (s : DSt) (np : Nat)
+    (faces : List (Nat × Nat × Nat)) (tail : Bytes)
+    (hrest : s.rest = encodeSeqHeader true ++ (encodeSeqConnectivityRaw np faces ++ tail))
+    (hidx : FacesBelow np faces) (hnp : np < 2^32) (hnf : faces.length ≤ 0xffffffff / 3) :
+    PostAt (decodeGeometry opts) s (fun r =>
+      r.geometry.isMesh = true ∧ r.geometry.numPoints = np ∧ r.geometry.faces = faces) := by
+  intro a s' e
+  rw [decodeGeometry_eq_seq opts s (isSeqStream_of_header s true _ hrest)] at e
+  exact decodeGeometrySeq_mesh_stream opts s np faces tail hrest hidx hnp hnf a s' e
+
+theorem decodeGeometry_pc_stream (opts : DecOpts) (s : DSt) (np : Nat) (tail : Bytes)
+    (hrest : s.rest = encodeSeqHeader false ++ (encodePcGeometryData np ++ tail))
+    (hnp : np < 2^32) :
+    PostAt (decodeGeometry opts) s (fun r =>
+      r.geometry.isMesh = false ∧ r.geometry.numPoints = np ∧ r.geometry.faces = []) := by
+  intro a s' e
+  rw [decodeGeometry_eq_seq opts s (isSeqStream_of_header s false _ hrest)] at e
+  exact decodeGeometrySeq_pc_stream opts s np tail hrest hnp a s' e
+
 end Draco.Counts
